@@ -638,6 +638,38 @@ Section C12.
       rewrite (eqb_neq _ _ Nyx), Ayx, Hxy. cbn [position]. rewrite Hb. reflexivity.
   Qed.
 
+  (** Complete description for three normal (or absent-base) pairwise distinct targets: the
+      merge resolves exactly when one side is an ancestor of the other AND the base is absent
+      or an ancestor of that ancestor side; in every other case the conflict is recorded. *)
+  Lemma mrt_normal (b0 : T) (x y : A) :
+    x <> y -> Some x <> b0 -> Some y <> b0 ->
+    mrt [Some x] [b0] [Some y] =
+      if ancb x y then (if remove_ok ancb x b0 then [Some y] else [Some x; b0; Some y])
+      else if ancb y x then (if remove_ok ancb y b0 then [Some x] else [Some x; b0; Some y])
+      else [Some x; b0; Some y].
+  Proof.
+    intros Nxy Nxb Nyb.
+    assert (TN : forall u v : T, u <> v -> teqb u v = false).
+    { intros u v H. destruct (teqb u v) eqn:E; [|reflexivity]. now apply teqb_spec in E. }
+    assert (LN : forall u v : list T, u <> v -> target_eqb eqb u v = false).
+    { intros u v H. destruct (target_eqb eqb u v) eqn:E; [|reflexivity]. now apply target_eqb_spec in E. }
+    assert (W1 : trivial_merge (target_eqb eqb) true [[Some x]; [b0]; [Some y]] = None).
+    { cbn [trivial_merge]. rewrite !LN by congruence. reflexivity. }
+    assert (F1 : flat_simplified eqb [Some x] [b0] [Some y] = [Some x; b0; Some y]).
+    { unfold flat_simplified. change (flatten [[Some x]; [b0]; [Some y]]) with [Some x; b0; Some y].
+      now apply simplify3_distinct. }
+    assert (T1 : trivial_merge teqb true [Some x; b0; Some y] = None).
+    { cbn [trivial_merge]. rewrite !TN by congruence. reflexivity. }
+    rewrite <- F1 in T1. rewrite (mrt_nontrivial _ _ _ W1 T1), F1.
+    cbn [length non_trivial]. unfold find_pair_to_remove.
+    cbn [adds removes evens odds enumerate_from find_outer find_inner pick].
+    rewrite (eqb_neq _ _ Nxy).
+    destruct (ancb x y) eqn:Axy.
+    - cbn [position]. destruct (remove_ok ancb x b0); reflexivity.
+    - destruct (ancb y x) eqn:Ayx; [|reflexivity].
+      cbn [position]. destruct (remove_ok ancb y b0); reflexivity.
+  Qed.
+
   (** * otherwise a conflict: how every result is justified *)
   Definition Outcome (l b r res : list T) : Prop :=
     (l = r /\ res = l) \/ (l = b /\ res = r) \/ (r = b /\ res = l)
